@@ -131,9 +131,8 @@ func (gj *resultGroupJob[T, R]) Close() error {
 
 	gj.ack()
 	gj.changeStatus(closed)
-	gj.wgc.Done()
-
-	if gj.wgc.Count() == 0 {
+	// only the job that takes the counter to zero closes the shared channel
+	if gj.wgc.Done() {
 		gj.Response.Close()
 	}
 
@@ -202,9 +201,8 @@ func (gj *errorGroupJob[T]) Close() error {
 
 	gj.ack()
 	gj.changeStatus(closed)
-	gj.wgc.Done()
-
-	if gj.wgc.Count() == 0 {
+	// only the job that takes the counter to zero closes the shared channel
+	if gj.wgc.Done() {
 		gj.Response.Close()
 	}
 
